@@ -346,9 +346,10 @@ fn run(ctx: &Ctx) -> Part {
                         }
                     }
                     let o2 = if n % 2 == 0 { cfg.orient ^ 4 } else { (cfg.orient & 4) | ((cfg.orient + 2) & 3) };
-                    let hist = [Op::SetOrientation(o2), op.clone()];
+                    // every other case draws first (window / offset memos filled under the old orientation)
+                    let hist: Vec<Op> = if n % 4 < 2 { vec![Op::SetOrientation(o2), op.clone()] } else { vec![Op::Clear { c: 0x0033 }, Op::SetOrientation(o2), op.clone()] };
                     acc.evaluations += 1;
-                    acc.transitions += 2;
+                    acc.transitions += hist.len() as u64;
                     acc.traces += 1;
                     if input_class(&op, lw, lh) != "in-bounds" {
                         acc.nontrivial += 1;
